@@ -120,6 +120,13 @@ def families(tier, seed):
     return fams
 
 
+def _twin_neg_keeps_normal():
+    ConvexPolygon.__neg__ = lambda self: ConvexPolygon(self.points)
+
+
+TWINS = {'-polygon keeps the normal': (r'^polygon/tri@axis/order012$', _twin_neg_keeps_normal)}
+
+
 META = dict(
     title='construction is order-independent and canonical',
     level_text=('Bounded symbolic model checking of the real ConvexPolygon / ConvexPolyhedron constructors and negation: convex vertex lists in all (<= 4 '
